@@ -510,6 +510,10 @@ func vRunTrigCase(c *vCase, prop string) {
 	for i := range signed {
 		signed[i] = vChance(r, 0.4)
 	}
+	emtSrc := 0 // the edge-multi source channel of mode emtgroup: the first or the last channel
+	if mode == "emtgroup" && vChance(r, 0.5) {
+		emtSrc = nchan - 1
+	}
 	genSet := func() []vTrigSetting {
 		set := make([]vTrigSetting, nchan)
 		if mode == "emt" {
@@ -532,11 +536,14 @@ func vRunTrigCase(c *vCase, prop string) {
 			for {
 				s, ok := vGenEMT(r, tr.npre, tr.nsamp)
 				if ok && s.ts.EMTState.mode != EMTRecordsVariableLength {
-					set[0] = s
+					set[emtSrc] = s
 					break
 				}
 			}
-			for ch := 1; ch < nchan; ch++ {
+			for ch := 0; ch < nchan; ch++ {
+				if ch == emtSrc {
+					continue
+				}
 				if vChance(r, 0.5) {
 					set[ch] = vGenTrigSetting(r, signed[ch], period, tr.nsamp)
 				} else {
@@ -611,9 +618,11 @@ func vRunTrigCase(c *vCase, prop string) {
 	}
 	if mode == "emtgroup" {
 		tr.groups = true
-		conns := map[int][]int{0: {}}
-		for rx := 1; rx < nchan; rx++ {
-			conns[0] = append(conns[0], rx)
+		conns := map[int][]int{emtSrc: {}}
+		for rx := 0; rx < nchan; rx++ {
+			if rx != emtSrc {
+				conns[emtSrc] = append(conns[emtSrc], rx)
+			}
 		}
 		f.ds.ChangeGroupTrigger(true, &GroupTriggerState{Connections: conns})
 	}
@@ -760,8 +769,40 @@ func vRunTrigCase(c *vCase, prop string) {
 				}
 			}
 			c.Cov("refused_trigger_requests", 1)
+			if mode == "emtgroup" {
+				// a record-length request that the edge-multi channel cannot accept (the others could): it is refused as a whole,
+				// no channel changes its lengths
+				es := cur.set[emtSrc].ts.EMTState
+				ns2, np2 := 0, 0
+				switch {
+				case es.nmonotone >= 2:
+					np2, ns2 = cur.npre, cur.npre+int(es.nmonotone)-1
+				case es.enableZeroThreshold:
+					np2, ns2 = 3, 3+(cur.nsamp-cur.npre)
+				}
+				if ns2 > np2 && np2 >= 3 {
+					if err := f.ds.ConfigurePulseLengths(ns2, np2); err == nil {
+						c.Inconclusive("setup", "ConfigurePulseLengths(%d,%d) was accepted although the edge-multi settings %+v of channel %d do not allow it; the epoch model does not cover that", ns2, np2, es, emtSrc)
+						return
+					}
+					for ch := 0; ch < nchan; ch++ {
+						if d := f.ds.processors[ch]; d.NSamples != cur.nsamp || d.NPresamples != cur.npre {
+							c.Violate("c01:refused-request-changed-settings", "ConfigurePulseLengths(%d,%d) was refused (channel %d's edge-multi settings do not allow it), but channel %d now makes records of %d/%d instead of %d/%d", ns2, np2, emtSrc, ch, d.NSamples, d.NPresamples, cur.nsamp, cur.npre)
+							return
+						}
+					}
+					c.Cov("refused_length_requests", 1)
+				}
+			}
 		}
 		tr.cuts[firstFrame+FrameIndex(f.pos)] = true
+		if (bi+c.Idx)%4 == 1 {
+			// status reads between blocks (the server collects the state of all channels after any request): they change nothing
+			f.ds.ComputeFullTriggerState()
+			f.ds.ComputeGroupTriggerState()
+			f.ds.ComputeWritingState()
+			c.Cov("status_reads_between_blocks", 1)
+		}
 		recs, err := f.push(n, nil, 0)
 		vBlockLog = append(vBlockLog, vBlockInfo{f.lastBlockFirstFrame, f.lastBlockLen, f.lastBlockFirstTime})
 		if err != nil {
